@@ -80,6 +80,7 @@ def gen_cases(ctx):
     for adv in ("EF", "RK2", "RK4"):
         out.append({"k": "roms", "adv": adv, "field": "linear-x"})
         out.append({"k": "roms", "adv": adv, "field": "linear-t"})
+        out.append({"k": "roms", "adv": adv, "field": "linear-t-v"})  # only v changes between the frames, u is steady
     if not ctx.quick:
         for adv in ("EF", "RK2", "RK4"):
             out.append({"k": "order", "adv": adv})
@@ -179,6 +180,7 @@ def eval_roms(desc, ctx):
     d = ctx.subdir("c01roms_" + desc["adv"] + desc["field"])
     imax, jmax, N = 14, 8, 2
     dx, dt = 1000.0, 600.0
+    v, expect_y = None, 4.0
     xu = np.arange(imax - 1) + 0.5
     if desc["field"] == "linear-x":
         c = 0.2 * dx / dt
@@ -187,17 +189,23 @@ def eval_roms(desc, ctx):
         z = 0.2
         want = {"EF": z, "RK2": z + z * z / 2, "RK4": z + z * z / 2 + z**3 / 6 + z**4 / 24}[desc["adv"]]
         expect = 7.0 + 2.0 * want
-    else:  # u grows linearly in time, frames one step apart: u(f) = c*f -> displacement c*dt/dx * int_0^1 f
+    elif desc["field"] == "linear-t":  # u grows linearly in time, frames one step apart: u(f) = c*f -> displacement c*dt/dx * int_0^1 f
         c = 0.5 * dx / dt
         u = np.stack([np.zeros((N, jmax, imax - 1)), np.full((N, jmax, imax - 1), c)]); times = [0, 600]
         expect = 7.0 + {"EF": 0.0, "RK2": 0.25, "RK4": 0.25}[desc["adv"]]
-    rf.write_roms(d / "f.nc", imax=imax, jmax=jmax, N=N, times=times, u=u, dx=dx)
+    else:  # steady u (the same in both frames), v grows linearly in time
+        c = 0.5 * dx / dt
+        u = np.full((2, N, jmax, imax - 1), 0.25 * dx / dt); times = [0, 600]
+        v = np.stack([np.zeros((N, jmax - 1, imax)), np.full((N, jmax - 1, imax), c)])
+        expect, expect_y = 7.25, 4.0 + {"EF": 0.0, "RK2": 0.25, "RK4": 0.25}[desc["adv"]]
+    rf.write_roms(d / "f.nc", imax=imax, jmax=jmax, N=N, times=times, u=u, v=v, dx=dx)
     rf.write_release(d / "r.rls", [[0, 7.0, 4.0, 5.0]])
     conf = rf.base_config(start=0, stop=int(dt), dt=int(dt), forcing_file=d / "f.nc", release_file=d / "r.rls", out_file=d / "o.nc", advection=desc["adv"])
     # one step: read the state directly
     m = rl.run_conf(conf)
-    X = float(m.state.X[0])
-    oracle = None if abs(X - expect) < 1e-6 else f"{desc['adv']} through the ROMS forcing on a {desc['field']} field: X = {X}, the scheme prescribes {expect}"
+    X, Y = float(m.state.X[0]), float(m.state.Y[0])
+    oracle = None if abs(X - expect) < 1e-6 and abs(Y - expect_y) < 1e-6 else (
+        f"{desc['adv']} through the ROMS forcing on a {desc['field']} field: (X, Y) = ({X}, {Y}), the scheme prescribes ({expect}, {expect_y})")
     return {"ints": None, "oracle": oracle, "nontrivial": ("roms", desc["adv"], desc["field"]), "kind": "roms-" + desc["field"], "observed": X}
 
 
